@@ -269,6 +269,17 @@ DescExercised(sc, top, ias, W) ==
           LET i == Min2(p[1], p[2]) j == Max2(p[1], p[2])
           IN OnlyDescending(ias, i, j) /\ DistBin(it, DD(W, i, j)) # Discard
 
+\* some non-bonded interaction counts a pair in the outer quarter of its last bin (d >= max + step/4):
+\* a neighbour search whose cut-off does not reach the upper edge max + step/2 of the last bin loses it
+OuterExercised(sc, top, ias, W) ==
+  \E x \in 1..Len(sc.inter) :
+    LET it == sc.inter[x]
+        e4 == 4 * (it.mq + (it.n - 1) * it.sq) + it.sq          \* 4 (max + step/4), q units
+    IN /\ it.kind = "nb"
+       /\ \E p \in NbPairs(top, ias, it, sc.intra) :
+             /\ DistBin(it, DD(W, p[1], p[2])) = it.n - 1
+             /\ e4 * e4 <= 16 * it.den * it.den * DD(W, p[1], p[2])
+
 \* a dihedral distribution sees a negative and a positive value that are counted (not discarded)
 DihExercised(sc, ias, W) ==
   \E x \in 1..Len(sc.inter) :
@@ -323,8 +334,9 @@ FrameData(sc, top, ias, f) ==
       win |-> WindowExercised(sc, top, ias, W),
       dih |-> DihExercised(sc, ias, W),
       desc |-> DescExercised(sc, top, ias, W),
+      outer |-> OuterExercised(sc, top, ias, W),
       skew |-> SkewExercised(sc, top, ias, sc.frames[f], W),
       tie |-> HasEdgeTie(sc, top, W),
-      dectie |-> \E x \in 1..Len(sc.inter) : /\ sc.inter[x].den # 4 /\ sc.inter[x].kind \in {"nb", "bond"}
+      dectie |-> \E x \in 1..Len(sc.inter) : /\ sc.inter[x].den = 100 /\ sc.inter[x].kind \in {"nb", "bond"}
                                               /\ \E i \in 1..Len(top) : \E j \in (i + 1)..Len(top) : OnEdge(sc.inter[x], W[i][j].d2)]
 =============================================================================
